@@ -44,6 +44,25 @@ def run(ctx, modes=('ws', 'blank', 'ws')):
             meta.append(sp.text)
             ctx.evals()
             me.count_nontrivial(ctx, tr, sp)
+    # wide programs: one list replicated beyond 10000 tokens (a few: parsing them is quadratic in the width)
+    from .. import widen
+    nwide = 0
+    for p in progs:
+        if nwide >= (2 if quick else 6):
+            break
+        w = widen.widen(p, 11000 if nwide % 2 == 0 else 21000, min_item=4)      # a qualified / aliased reference, a call, ...
+        if w is None:
+            continue
+        sp = sqlprog.spell(w, rng, gaps='blank')
+        if not sqlprog.lexes_as_intended(sp):
+            continue
+        tr = accrec.record(len(traces), sp)
+        traces.append(tr)
+        meta.append(sp.text)
+        ctx.evals()
+        ctx.nontrivial(('wide', nwide, len(sp.words)))
+        nwide += 1
+    ctx.cov['wide_programs'] = nwide
     if PID == 'C12':
         # design-level run of the accessor model + its binding to the real classes
         accrun.run(ctx, quick)
